@@ -49,6 +49,52 @@ def r1(ctx):
             ctx.ok(rule, "manual-ord", {"derived_impls": n})
 
 
+SORTING = ("sort_fields_canonically", "sort", "sort_by", "sort_by_key", "sort_unstable", "sort_unstable_by", "reverse", "to_vec")
+
+
+def _under_sort(P, body, O, bb):
+    """is block bb executed only when the EncodingOrdering value is Sort? (match arm or `== EncodingOrdering::Sort` test)"""
+    adt = [a for k, a in P.adts.items() if k.endswith("rust::EncodingOrdering")]
+    names = [v.get("name") for v in adt[0].get("variants", [])] if adt else []
+    for s_bb, ex, vals in R.path_values(body, O, bb):
+        e = X.strip(ex)
+        if e[0] == "discr" and "Sort" in names:
+            ty = body.blocks[s_bb]["term"].get("opty", "")
+            src = [st for st in body.blocks[s_bb]["stmts"] if st["k"] == "assign" and st["rv"]["k"] == "discr"]
+            if src and "EncodingOrdering" in src[-1]["rv"].get("of", ""):
+                i = names.index("Sort")
+                if vals == ("in", frozenset({i})) or (vals[0] == "not" and set(range(len(names))) - set(vals[1]) == {i}):
+                    return True
+    for s_bb, ex, val in R.path_conditions(body, O, bb):
+        e = X.strip(ex)
+        if e[0] == "call" and X.last_seg(e[1] or "") in ("eq", "ne") and len(e[3]) == 2:
+            ks = [R.const_structure(P, body, a) for a in e[3]]
+            if not ks[0] and not ks[1]:
+                # a fieldless enum constant may be a plain aggregate operand
+                ks = [a if X.strip(a)[0] == "agg" else None for a in (X.strip(e[3][0]), X.strip(e[3][1]))]
+            k = ks[0] or ks[1]
+            if k is not None and k[0] == "agg" and k[2].endswith("EncodingOrdering") and k[3] == "Sort":
+                if (X.last_seg(e[1]) == "eq") == bool(val):
+                    return True
+    return False
+
+
+def _sort_confined_by_conditions(ctx, r3, P, body, O, cs):
+    """R3 without assuming a `match`: every order-changing call of the caller runs only under ordering == Sort"""
+    calls = [c for c in body.calls() if c.name in SORTING and (c.name != "to_vec")]
+    if not calls or not _under_sort(P, body, O, cs.bb):
+        return False
+    detail = {"caller": body.path, "call": cs.loc(), "order_changing_calls": [(c.name, c.loc()) for c in calls]}
+    loose = [c for c in calls if not _under_sort(P, body, O, c.bb)]
+    if loose:
+        ctx.fail(r3, "keep-arm", "%s is called outside the EncodingOrdering::Sort case: the declared order of a SEQUENCE is changed" % loose[0].name,
+                 loose[0].loc(), detail)
+    else:
+        ctx.ok(r3, "sort-arm", detail)
+        ctx.ok(r3, "keep-arm", {"calls_outside_sort": []})
+    return True
+
+
 def r2_r3(ctx):
     r2 = "C16.R2"
     r3 = "C16.R3"
@@ -84,7 +130,27 @@ def r2_r3(ctx):
             detail["key_types"] = [kt]
             cmps = [(None, (sk or sorts)[0])]
         m = re.match(r"\((bool), &?(.*)\)$", kt)
-        if not m or "Tag" not in kt:
+        chain = False
+        if not m:
+            # the same key written as a lexicographic chain: `a_flag.cmp(b_flag).then_with(|| a.tag.cmp(&b.tag))` / `.then(..)`
+            tys = [(cs.fn.get("self_ty") or "") for _, cs in cmps]
+            thens = [cs for c in closures for cs in c.calls() if cs.name in ("then_with", "then") and "Ordering" in (cs.fn.get("def") or "")]
+            first_bool = False
+            for c in closures:
+                Oc = X.Origins(c, P)
+                by_loc = {cs.loc(): cs for cs in c.calls() if cs.name == "cmp"}
+                for cs in c.calls():
+                    if cs.name in ("then_with", "then") and "Ordering" in (cs.fn.get("def") or ""):
+                        a0 = X.strip(Oc.call_args(cs)[0])
+                        # the comparison the chain starts with decides first: it must be the one on the extension flag
+                        if a0[0] == "call" and X.last_seg(a0[1] or "") == "cmp" and a0[4] in by_loc:
+                            first_bool = (by_loc[a0[4]].fn.get("self_ty") or "") == "bool"
+            if thens and first_bool and any("Tag" in t for t in tys) and all(t == "bool" or "Tag" in t for t in tys):
+                chain = True
+                detail["key_types"] = ["bool, then " + next(t for t in tys if "Tag" in t)]
+        if chain:
+            ctx.ok(r2, "key-type", detail)
+        elif not m or "Tag" not in kt:
             ctx.fail(r2, "key-type", "the sort key is `%s`, not (extension flag: bool, tag)" % kt, cmps[0][1].loc(), detail)
         else:
             ctx.ok(r2, "key-type", detail)
@@ -128,6 +194,23 @@ def r2_r3(ctx):
         for cs in c.calls():
             if cs.name == "or_else" and "tag" in X.render(O.call_args(cs)[0]):
                 tag_ok = True
+    if not tag_ok:
+        # `if field.tag.is_none() { field.tag = field.type().tag(); }`
+        for c in [b] + closures:
+            O = X.Origins(c, P)
+            for bb, j, st in c.all_statements():
+                if st["k"] != "assign" or not st["pl"]["p"] or st["pl"]["p"][-1].get("n") != "tag":
+                    continue
+                v = X.strip(O.rvalue(st["rv"], bb, j, 0))
+                if not (v[0] == "call" and X.last_seg(v[1] or "") == "tag"):
+                    continue
+                for s_bb, ex, val in R.path_conditions(c, O, bb):
+                    e = X.strip(ex)
+                    if e[0] == "call" and X.last_seg(e[1] or "") in ("is_none", "is_some") and "tag" in X.render(e[3][0]):
+                        if (X.last_seg(e[1]) == "is_none") == bool(val):
+                            tag_ok = True
+                    elif e[0] == "discr" and "tag" in X.render(e[1]) and not val:
+                        tag_ok = True       # discriminant 0 = None
     d2 = {"comparisons_in_key_closures": flag_detail[:6]}
     if flag_ok:
         ctx.ok(r2, "extension-flag", d2)
@@ -152,6 +235,8 @@ def r2_r3(ctx):
         return
     body, cs = callers[0]
     O = X.Origins(body, P)
+    if _sort_confined_by_conditions(ctx, r3, P, body, O, cs):
+        return
     arms = R.match_tables(P, body, O)
     arm = [a for a in arms if cs.bb in a.blocks and a.path[-1][0].endswith("$7") or (cs.bb in a.blocks and "ordering" in a.path[-1][0])]
     arm = [a for a in arms if cs.bb in a.blocks]
